@@ -31,7 +31,8 @@ type Config struct {
 	SideMean    float64            `json:"sideMean"`
 	PRestart    float64            `json:"pRestart"`
 	PCrash      float64            `json:"pCrash"`
-	CrashEnum   int                `json:"crashEnum"` // number of blocks whose crash points are all enumerated
+	CrashEnum   int                `json:"crashEnum"`            // number of blocks whose crash points are all enumerated
+	CrashAgain  bool               `json:"crashAgain,omitempty"` // also crash a second time during the recovery replay
 	PLag        float64            `json:"pLag"`
 	QueryMean   float64            `json:"queryMean"`
 	EVM         bool               `json:"evm"`
@@ -103,6 +104,7 @@ type Fault struct {
 	Replica int    `json:"r"`
 	At      string `json:"at"`               // yield point or commit-write point name
 	Follow  int    `json:"follow,omitempty"` // how many blocks the forked node follows
+	Again   string `json:"again,omitempty"`  // crash a second time at this point while the recovering node replays the interrupted block
 }
 
 type BlockStep struct {
